@@ -162,10 +162,180 @@ def run_locks(u):
         ob.prove("one lock and one unlock per iteration, none held at return", len([1 for k, _ in log if k == 'lock']) == len(steps) and len([1 for k, _ in log if k == 'unlock']) == len(steps) and not any(locks.values()), [], domain='lock log')
     return rep
 
+def socket_env(I, request):
+    """scripted socket environment for one run of the real reb_server_start: one connection whose byte stream is `request`, then
+    accept() fails (which is how the main thread stops the server) and the function returns"""
+    from llsym import stubs as S
+    fs = S._fs(I)
+    node = S.file_node(I, 'socket:7', True); I.mem.set_bytes(node.ptr, request); node.length = len(request)
+    fs.files['rebound.html'] = S.file_node(I, 'rebound.html', True)
+    state = dict(accepts=0, node=node)
+    I.stubs['@access'] = lambda I_, p, m: 0
+    for f in ('@pthread_setcancelstate', '@pthread_setcanceltype', '@setsockopt', '@bind', '@listen', '@close', '@system'): I.stubs[f] = lambda I_, *a: 0
+    I.stubs['@socket'] = lambda I_, *a: 5
+    I.stubs['@htonl'] = lambda I_, v: v; I.stubs['@htons'] = lambda I_, v: v
+    def accept(I_, *a):
+        state['accepts'] += 1
+        return 7 if state['accepts'] == 1 else 0xffffffff
+    I.stubs['@accept'] = accept
+    def fdopen(I_, fd, mode):
+        h = S._open(I_, node, 'r+'); h_ = S._fs(I_).handles[h.obj]; h_['append'] = False
+        # a socket stream: what is written does not land behind the read position of the request but goes to the peer
+        out = S.file_node(I_, 'socket:7:out', True); state['out'] = out; state['handle'] = h.obj
+        return h
+    I.stubs['@fdopen'] = fdopen
+    real_fwrite = I.stubs.get('@fwrite') or S.st_fwrite
+    def fwrite(I_, p, size, n, f):
+        if isinstance(f, Ptr) and f.obj == state.get('handle'):
+            hh = S._fs(I_).handles[f.obj]; keep = (hh['node'], hh['pos'])
+            hh['node'] = state['out']; hh['pos'] = state['out'].length
+            try: return S.st_fwrite(I_, p, size, n, f)
+            finally: hh['node'], hh['pos'] = keep
+        return S.st_fwrite(I_, p, size, n, f)
+    I.stubs['@fwrite'] = fwrite
+    def sscanf(I_, buf, fmt, *args):
+        b = I_.mem.cstring(buf).decode('latin1'); f = I_.mem.cstring(fmt).decode()
+        if f == "%s %s %s\n":
+            parts = b.split()
+            for dst, w in zip(args, parts[:3]): I_.mem.set_bytes(dst, w.encode('latin1') + b'\0')
+            return min(3, len(parts))
+        if f == "Content-Length: %s\n":
+            if not b.startswith("Content-Length:"): return 0
+            w = b[len("Content-Length:"):].split()
+            if not w: return 0xffffffff
+            I_.mem.set_bytes(args[0], w[0].encode() + b'\0'); return 1
+        if f == "/keyboard/%d":
+            if not b.startswith("/keyboard/"): return 0
+            import re as _re
+            m_ = _re.match(r'\s*([+-]?\d+)', b[len("/keyboard/"):])
+            if not m_: return 0
+            I_.mem.store(args[0], I32, int(m_.group(1)) & 0xffffffff); return 1
+        raise Unsupported("sscanf format %r" % f)
+    I.stubs['@__isoc99_sscanf'] = sscanf
+    def strncasecmp(I_, a, b, n):
+        x = I_.mem.cstring(a).decode('latin1').lower()[:n]; y = I_.mem.cstring(b).decode('latin1').lower()[:n]
+        return 0 if x == y else (1 if x > y else 0xffffffff)
+    I.stubs['@strncasecmp'] = strncasecmp
+    def strtol(I_, p, end, base):
+        import re as _re
+        m_ = _re.match(r'\s*([+-]?\d+)', I_.mem.cstring(p).decode('latin1'))
+        return (int(m_.group(1)) if m_ else 0) & 0xffffffffffffffff
+    I.stubs['@strtol'] = strtol
+    return state
+
+def run_handler(u):
+    """the real reb_server_start serving ONE scripted HTTP request against a simulation that has just taken a step (for the
+    *_unsync configurations: in the middle of a deferred synchronisation): every persisted location of the simulation must be
+    the same term before and after the request, the server mutex must be held exactly around the access to the simulation, and a
+    /simulation response must be the header followed by exactly the bytes reb_simulation_save_to_stream produces afterwards"""
+    rep = Report(); cfgname, uri = u['cfg'], u['uri']
+    label = "server request %s on %s " % (uri, cfgname)
+    L = build.layout()
+    dom = UF(); ctx = P.StrictCtx(); I = new_interp(dom, ctx); I.concrete_env = True
+    I.stubs['@reb_whfast_kepler_solver'] = c05.kepler_uf_stub(dom)
+    sim = P.build_engine_state(I, P.CONFIGS[cfgname], 2)
+    for i in range(2):
+        for c in ('x', 'y', 'z', 'vx', 'vy', 'vz', 'm'): sim.particle(i).set(c, dom.fresh('p%d_%s' % (i, c)))
+    try:
+        I.call('@reb_simulation_step', [sim.ptr])
+        sd = I.mem.alloc(L.structs['reb_server_data']['size'], 'server_data', 'heap', zero=True)
+        sdv = SimView(I, sd, 'reb_server_data'); sdv.set('r', sim.ptr); sdv.set('port', 1234)
+        sim.set('server_data', sd)
+        tab = P.read_table(I)
+        locs = list(P.locations(I, sim, tab, []))
+        before = {}
+        for lc in locs:
+            p = lc.ptr(I, sim)
+            if p is not None: before[lc.label] = (lc, I.mem.load(p, lc.ty))
+        env = socket_env(I, ("GET %s HTTP/1.1\r\nHost: localhost\r\n\r\n" % uri).encode())
+        moff = L.off('reb_server_data', 'mutex')
+        I.lock_log = []
+        I.call('@reb_server_start', [sd])
+    except P.NeedConcrete as e:
+        rep.errors.append(label + "symbolic branch on %r" % (e.names,)); return rep
+    rep.paths += 1; rep.add_interp(I)
+    ob = Obligations(rep, Prover(t_inproc_ms=5000, use_external=False), label)
+    def on_sat(model):
+        ok, detail = native_request(cfgname, uri)
+        return ok, 'C19:request:%s:%s' % (uri, cfgname), detail, dict(kind='request', cfg=cfgname, uri=uri)
+    n = 0
+    for lab, (lc, x) in before.items():
+        if lc.field.startswith('walltime') or lc.field.startswith('server_data'): continue
+        if uri.startswith('/keyboard/') and lc.field == 'status': continue        # documented effect of the key commands (Q: quit, space: pause)
+        p = lc.ptr(I, sim)
+        if p is None:
+            ob.prove("%s still exists after the request" % lab, False, [], on_sat=on_sat, domain='UF'); continue
+        y = I.mem.load(p, lc.ty)
+        if isinstance(x, Ptr) or isinstance(y, Ptr):
+            ob.prove("%s (pointer) is unchanged by the request" % lab, isinstance(x, Ptr) and isinstance(y, Ptr) and (x.obj, x.off) == (y.obj, y.off), [], on_sat=on_sat, domain='UF'); continue
+        n += 1
+        ob.prove("%s is unchanged by serving the request" % lab, P.vals_equal(dom, x, y), [], on_sat=on_sat, domain='UF')
+    log = list(getattr(I, 'lock_log', [])); locks = dict(getattr(I, 'locks', {}))
+    nl = len([1 for k, _ in log if k == 'lock']); nu = len([1 for k, _ in log if k == 'unlock'])
+    want = 1 if (uri == '/simulation' or uri.startswith('/keyboard/')) else 0
+    ob.prove("the server mutex is taken and released exactly around the access to the simulation (%d time(s)) and not held at return" % want, nl == want and nu == want and not any(locks.values()), [], domain='lock log')
+    out = env.get('out')
+    if uri == '/simulation':
+        hdr = I.mem.cstring(I.mem.load(I.global_ptr('@reb_server_header'), PtrT(I8)))
+        bufp = I.mem.alloc(8, 'bufp', 'harness', zero=True); szp = I.mem.alloc(8, 'sizep', 'harness', zero=True)
+        I.call('@reb_simulation_save_to_stream', [sim.ptr, bufp, szp])
+        size = I.mem.load(szp, I64)
+        ob.prove("response length == header + snapshot size", out is not None and out.length == len(hdr) + size, [], on_sat=on_sat, domain='control', sample=dict(response_bytes=out.length if out else None, header=len(hdr), snapshot=size))
+        if out is not None and out.length == len(hdr) + size:
+            from llsym import stubs as S
+            ref = S.file_node(I, 'reference-response', True)
+            I.mem.set_bytes(ref.ptr, hdr); I.mem.copy(Ptr(ref.ptr.obj, ref.ptr.off + len(hdr)), I.mem.load(bufp, PtrT(I8)), size); ref.length = len(hdr) + size
+            la, lb, diff, conds = P.files_diff(I, 'socket:7:out', 'reference-response')
+            ob.prove("the response is byte for byte the HTTP header followed by the snapshot reb_simulation_save_to_stream produces at this step boundary", la == lb and not diff, [], on_sat=on_sat, domain='UF bytes', sample=dict(differing_offsets=diff[:8]))
+            for k_, e in conds[:200]: ob.prove("response byte %d equals the snapshot byte" % k_, e, [], on_sat=on_sat, domain='UF bytes')
+    rep.witnesses += 1 if n else 0
+    if not n: rep.vacuous.append(label + "no location compared")
+    return rep
+
+def native_request(cfgname, uri):
+    """native: real server thread + a real HTTP request over the loopback interface against a simulation sitting between two steps;
+    the continued trajectory must be bit-identical to that of a twin that was never asked"""
+    import socket as pysock, time as _t, random
+    outs = []; note = ''
+    for serve in (False, True):
+        ns = P.build_native_state(nat(), P.CONFIGS[cfgname], 3)
+        try:
+            ns.call('reb_simulation_step')
+            if serve:
+                port = 20000 + random.Random(os.getpid()).randrange(20000)
+                f = nat().lib.reb_simulation_start_server; f.argtypes = [ctypes.c_void_p, ctypes.c_int]; f.restype = ctypes.c_int
+                if f(ns.addr, port) != 0: return False, "native server could not be started (no loopback?)"
+                try:
+                    ok = False
+                    for _ in range(50):
+                        try:
+                            c = pysock.create_connection(('127.0.0.1', port), timeout=2); ok = True; break
+                        except OSError: _t.sleep(0.05)
+                    if not ok: return False, "native server not reachable on the loopback interface"
+                    c.sendall(("GET %s HTTP/1.1\r\nHost: localhost\r\n\r\n" % uri).encode())
+                    data = b''
+                    c.settimeout(2)
+                    try:
+                        while True:
+                            chunk = c.recv(65536)
+                            if not chunk: break
+                            data += chunk
+                    except OSError: pass
+                    c.close(); note = "%d response bytes" % len(data)
+                finally:
+                    g = nat().lib.reb_simulation_stop_server; g.argtypes = [ctypes.c_void_p]; g.restype = None; g(ns.addr)
+            for k in range(2): ns.call('reb_simulation_step')
+            ns.call('reb_simulation_synchronize')
+            outs.append([ns.particle(i).getbits(c) for i in range(3) for c in ('x', 'y', 'z', 'vx', 'vy', 'vz')])
+        finally:
+            ns.free()
+    return outs[0] != outs[1], "native %s: trajectory %s when a client fetches %s between two steps (%s)" % (cfgname, 'changes' if outs[0] != outs[1] else 'is bit-identical', uri, note)
+
 def worker(u):
-    return {'footprint': run_footprint, 'neutral': run_neutral, 'locks': run_locks}[u['what']](u)
+    return {'footprint': run_footprint, 'neutral': run_neutral, 'locks': run_locks, 'handler': run_handler}[u['what']](u)
 
 def replay(data):
+    if data.get('kind') == 'request': return native_request(data['cfg'], data['uri'])
     if 'writes' in data: return bool(data['writes']), "recorded footprint %r" % (data,)
     return native_neutral(data['cfg'])
 
@@ -177,13 +347,16 @@ def main():
     us = [dict(what='footprint', cfg=c) for c in cfgs]
     us += [dict(what='neutral', cfg=c) for c in ['leapfrog', 'whfast', 'whfast_unsync', 'whfast_dh_kernel', 'saba', 'sei', 'none', 'janus']]
     us.append(dict(what='locks'))
+    for c in (['whfast', 'whfast_unsync', 'saba', 'leapfrog'] if tier == 'quick' else ['leapfrog', 'whfast', 'whfast_unsync', 'whfast_dh_kernel', 'saba', 'sei', 'none', 'janus']):
+        us.append(dict(what='handler', cfg=c, uri='/simulation'))
+    us.append(dict(what='handler', cfg='whfast_unsync', uri='/keyboard/81')); us.append(dict(what='handler', cfg='whfast_unsync', uri='/nonexistent'))
     rep = run_units(us, worker)
     code = finish(PID, tier, rep, t0,
         bounds=dict(configurations=len(cfgs), particles=2, steps=1, integrate_iterations='<= 3'),
         assumptions=['frame argument (stated, not solver-proved): two simulations whose footprints are confined to their own heap objects commute at instruction granularity, whatever the schedule',
                      'footprints of adaptive integrators (IAS15, BS, MERCURIUS, TRACE) are observed on concrete data only', 'model mutex: relock and unlock-without-lock are errors'],
         outside=['THE INTERLEAVING QUANTIFIER ITSELF: pre-emption inside a step, the need_copy busy-wait, fairness, data races on status / messages between the server thread and the integration thread, the display thread, real sockets',
-                 'reb_server_start request handling (scripted socket run not built)'],
+                 'request handling beyond one scripted request per run (/simulation, one /keyboard key, an unknown uri); POST bodies, screenshots'],
         domain_note='memory-model access logs; UF twin; REAL paths for the integrate loop')
     sys.exit(code)
 
